@@ -610,6 +610,25 @@ def api_translates():
             seen[attr] = seen.get(attr, True) and good
     out.append(("scan/api_translates_every_path/get_info.elementwise", seen == dict(inp=True, out=True, vol=True),
                 f"inp / out / vol replaced by translate_back of each received path: {seen}"))
+    # a path read from the environment and handed back to the step (getenv(..., back=True)) keeps its leading `./` and
+    # trailing `/` (C20: "preserves a leading ./ or trailing / wherever it carries meaning" -- the trailing separator is
+    # what makes a path a directory for the step): translate_back is applied through _keep_affixes
+    _, tb = extract.find_def(apimod_path, "_translate_back_env_path")
+    last = tb.body[-1]
+    good = False
+    if isinstance(last, ast.Return) and isinstance(last.value, ast.IfExp):
+        v = last.value
+        good = (isinstance(v.body, ast.Call) and ast.unparse(v.body.func) == "_keep_affixes" and len(v.body.args) == 2
+                and ast.unparse(v.body.args[1]) == "translate_back" and ast.unparse(v.body.args[0]) == ast.unparse(v.orelse)
+                and ast.unparse(v.test) == "back")
+    out.append(("scan/api_translates_every_path/getenv_back.keeps_affixes", good,
+                f"returns {ast.unparse(last.value) if isinstance(last, ast.Return) and last.value is not None else None}"))
+    _, ka = extract.find_def(apimod_path, "_keep_affixes")
+    body = [ast.unparse(x) for x in ka.body if not (isinstance(x, ast.Expr) and isinstance(x.value, ast.Constant))]
+    out.append(("scan/api_translates_every_path/keep_affixes_restores_both",
+                body == ["(prefix, suffix) = get_affixes(path)", "return apply_affixes(transform(coerce_path(path)), prefix, suffix)"]
+                or body == ["prefix, suffix = get_affixes(path)", "return apply_affixes(transform(coerce_path(path)), prefix, suffix)"],
+                str(body)))
     src, node = extract.find_def("stepup/core/executor.py", "Executor._run_command")
     # the values stored under env["ROOT"] / env["HERE"], with locals that are assigned once written out
     once = {}
